@@ -20,8 +20,8 @@ def NID(k, nid="N1"): return dict(op="SetNid", k=k, nid=nid)
 def PREV(k, frm): return dict(op="SetPrev", k=k, **{"from": frm})
 def G(k, nsig, nid="none", order=("k1", "k2", "k3"), hasState=False, ssig="none", skip=False):
     return dict(op="GenCerts", k=k, nid=nid, order=list(order), nsig=nsig, hasState=hasState, ssig=ssig, skip=skip)
-def ROT(k, src, which, k2, e2, n2, nid="none", order=("k1", "k2", "k3"), ostate="none"):
-    return dict(op="Rotate", k=k, nid=nid, order=list(order), src=src, which=which, k2=k2, e2=e2, n2=n2, ostate=ostate)
+def ROT(k, src, which, k2, e2, n2, nid="none", order=("k1", "k2", "k3"), ostate="none", lf=False):
+    return dict(op="Rotate", k=k, nid=nid, order=list(order), src=src, which=which, k2=k2, e2=e2, n2=n2, ostate=ostate, lf=lf)
 def SUB(api, mut, nb=-3, na=30, sknb=0, skna=0, k="k1", e="e1", n="n1", prime=False):
     return dict(op="Submit", api=api, mut=mut, nb=nb, na=na, sknb=sknb, skna=skna, k=k, e=e, n=n, prime=prime)
 
@@ -36,6 +36,11 @@ def PC(k, frm): return dict(op="SetPrevCert", k=k, **{"from": frm})
 for nidl in (True, False):
     beh("f05_prev_cert_key" + ("n" if nidl else ""), ["C05"], [A("k1", "e1", "n1"), A("k2", "e1", "n2"), NID("k1"), NID("k2"), PC("k2", "k1"), G("k2", "k2", "N1"), G("k1", "k1", "N1"), R("k1"),
                                                          G("k2", "k1", "N1"), G("k2", "k1", "none"), G("k1", "k1", "N1"), G("k2", "k1", "N1", hasState=True, ssig="k1"), G("k2", "k2", "N1")], nidl=nidl)
+# a replayed rotation payload while the lookup of the new key's record fails transiently: still refused
+for sw in (False, True):
+    beh("f10_replay_loadfault" + ("w" if sw else ""), ["C10"], [A("k1", "e1", "n1", "s1"), ROT("k1", "k1", "cur", "k2", "e2", "n2", lf=True), ROT("k1", "k1", "cur", "k2", "e2", "n2"),
+                                                                ROT("k1", "k1", "cur", "k2", "e2", "n2", lf=True), ROT("k1", "k1", "cur", "k2", "e2", "n2"), ROT("k2", "k2", "cur", "k3", "e1", "n1", lf=True),
+                                                                ROT("k2", "k2", "cur", "k3", "e1", "n1")], sw=sw)
 def FR(t, ka, kb, e="e1", be="inmem"): return dict(op="FetchRace", t=t, ka=ka, kb=kb, e=e, be=be)
 # overlapping fetches presenting the same token: known finding KF-C06-1 on the in-memory back end; the file back end refuses the loser
 beh("kf_c06_race", ["C06"], [T("t1", "s1"), FR("t1", "k1", "k2"), F("k3", "e1", "t1"), T("t2"), FR("t2", "k3", "k1"), FR("t2", "k3", "k2")])
